@@ -7,11 +7,14 @@ import Rustemo.Driver.Resolve
 import Rustemo.Driver.Gen
 import Rustemo.Driver.Front
 import Rustemo.Driver.Ast
+import Rustemo.Driver.Glr
 import Rustemo.Model.Canon
 import Rustemo.Model.CertComplete
 import Rustemo.Model.Core
 import Rustemo.Model.Lex
 import Rustemo.Model.Forest
+import Rustemo.Model.CertViable
+import Rustemo.Model.LexTok
 /-!
 Line-protocol driver: one request per line on stdin, one answer per line on stdout.
 
@@ -69,6 +72,13 @@ def handle (st : DState) (line : String) : DState × String :=
       let b := fun (x : Bool) => if x then "1" else "0"
       (st, s!"first={b (Cert.firstOk g c)} closure={b (Cert.closureOk g c t)} trans={b (Cert.transOk g t)} reduce={b (Cert.reduceOk g t)} det={b (Cert.detOk t)} grammar={b (Cert.grammarOk g t)}")
     | ["noshiftstop"] => (st, if Cert.noShiftStop st.dump.table then "1" else "0")
+    | ["productive"] => (st, if Cert.productive st.dump.grammar then "1" else "0")
+    | ["viable"] =>
+      let g := st.dump.grammar
+      let t := st.dump.table
+      let b := fun (x : Bool) => if x then "1" else "0"
+      (st, s!"productive={b (Cert.productive g)} anchored={b (Cert.anchored g t (autosOf g t))} nonempty={b (Cert.targetsNonEmpty t)}")
+    | ["singlechar"] => (st, if Cert.singleCharLexer st.dump.grammar st.dump.table then "1" else "0")
     | _ => (st, "bad-request")
   | "tlr" =>
     -- token-level LR parser (Model/Core.lean `tparse`) on a comma separated list of token kinds
@@ -92,6 +102,13 @@ def handle (st : DState) (line : String) : DState × String :=
   | "regen" => (st, Rustemo.Regen.handleRegen rest)
   | "front" => (st, Rustemo.Front.handleFront rest)
   | "ast" => (st, Rustemo.Ast.handleAst rest)
+  | "glr" => (st, Rustemo.Glr.handleGlr st.dump rest)
+  | "charenv" =>
+    -- hypothesis `CharEnv` of the byte/token simulation for one input: `charenv <input-hex> #<matrix>`
+    match rest.splitOn " #" with
+    | [inp, mat] =>
+      (st, if charEnvOk (envOf st.dump (unhexBytes inp.trimAscii.toString) (parseMatrix mat)) then "1" else "0")
+    | _ => (st, "bad-request")
   | "rawdet" => (st, if st.dump.table.rawDeterministic st.dump.grammar then "1" else "0")
   | "lr" =>
     match rest.splitOn " #" with
